@@ -189,7 +189,7 @@ def enumerate_cases(ctx, depth, tier):
     if res.error or res.violated:
         raise MachineryError("LinearEnum failed: %s %s" % (res.violated, res.error))
     cfgs = tlc.read_ndjson(cfgs_path)
-    cases = [c["e"] for c in tlc.read_ndjson(out)]
+    cases = tlc.read_ndjson(out)  # {e: UPJ expression, cfgs: configurations (1-based) it is run on}
     em = [p for p in res.printed if p and p[0] == "EMITTED"]
     if not em or em[0][1] != len(cfgs) or em[0][2] != len(cases) or not cases:
         raise MachineryError("LinearEnum: emitted %r, read %d configurations and %d expressions" % (em, len(cfgs), len(cases)))
@@ -198,13 +198,17 @@ def enumerate_cases(ctx, depth, tier):
 
 
 def observe(ctx, cfgs, cases, kind_rate, first_id=0):
-    """run every (configuration, expression) on the real code; returns (observations, statistics)"""
+    """run every case on the configurations it names, on the real code; returns (observations, statistics, last id)"""
     obs = []
     st = {"unbuilt": 0, "exc": 0, "lin": 0, "nonlin": 0, "pos_only": 0, "neg_only": 0, "both": 0, "absent": 0, "kind": 0, "kind_snp": 0}
     oid = first_id
     for ci, cfg in enumerate(cfgs):
-        w = World(cfg)
-        for e in cases:
+        w = None
+        for c in cases:
+            if ci + 1 not in c["cfgs"]:
+                continue
+            e = c["e"]
+            w = w or World(cfg)
             oid += 1
             fn = w.build(e)
             if fn is None:
@@ -314,37 +318,35 @@ def run(ctx):
     stats = {}
     total = 0
 
-    def batch(label, cfg_sel, exprs, kind_rate, first_id):
-        sub = [cfgs[i] for i in cfg_sel]
-        # the judge indexes IOEnv.CFGS: keep the file TLC wrote and map the selection onto it
-        obs, st, last = observe(ctx, sub, exprs, kind_rate, first_id)
-        for o in obs:
-            o["cfg"] = cfg_sel[o["cfg"] - 1] + 1
+    def batch(label, sel, kind_rate, first_id):
+        obs, st, last = observe(ctx, cfgs, sel, kind_rate, first_id)
         verdicts = judge(ctx, label, cfgs_path, obs, True)
         report(ctx, cfgs, obs, verdicts, True, tally)
         for k, v in st.items():
             stats[k] = stats.get(k, 0) + v
-        return obs, last
+        mid = obs[len(obs) // 2]
+        ctx.sample({"kind": label + " case", "cfg": cfgs[mid["cfg"] - 1]["tag"], "e": show(mid["e"]), "res": mid["res"]})
+        return len(obs), last
 
+    nrandom = 0
     if q:
-        obs, last = batch("enum", list(range(len(cfgs))), cases, 0.03, 0)
-        total += len(obs)
-        ctx.sample({"kind": "enumerated case", "cfg": cfgs[obs[len(obs) // 2]["cfg"] - 1]["tag"], "e": show(obs[len(obs) // 2]["e"]), "res": obs[len(obs) // 2]["res"]})
+        n, last = batch("enumerated", cases, 0.04, 0)
+        total += n
     else:
-        small = [e for e in cases if size(e) <= 5]
-        big = [e for e in cases if size(e) > 5]
-        # every configuration on everything up to op(D1, leaf); the full depth 2 on the three sign classes of q
-        obs, last = batch("enum-small", list(range(len(cfgs))), small, 0.05, 0)
-        total += len(obs)
-        ctx.sample({"kind": "enumerated case", "cfg": cfgs[obs[len(obs) // 2]["cfg"] - 1]["tag"], "e": show(obs[len(obs) // 2]["e"]), "res": obs[len(obs) // 2]["res"]})
-        for ci in range(3):
-            obs, last = batch("enum-d2-cfg%d" % (ci + 1), [ci], big, 0.01, last)
-            total += len(obs)
-        rnd = [random_expr(ctx.rng, ctx.rng.choice([3, 3, 4])) for _ in range(12000)]
-        rnd = [e for e in rnd if leaves(e) & {"x", "y"}]
-        obs, last = batch("random", list(range(len(cfgs))), rnd, 0.02, last)
-        total += len(obs)
-        ctx.sample({"kind": "random case", "cfg": cfgs[obs[0]["cfg"] - 1]["tag"], "e": show(obs[0]["e"]), "res": obs[0]["res"]})
+        small = [c for c in cases if size(c["e"]) <= 5]
+        big = [c for c in cases if size(c["e"]) > 5]
+        n, last = batch("enumerated", small, 0.05, 0)
+        total += n
+        step = 50000
+        for k in range(0, len(big), step):
+            n, last = batch("enumerated-depth2-%d" % (k // step + 1), big[k : k + step], 0.01, last)
+            total += n
+        allc = list(range(1, len(cfgs) + 1))
+        rnd = [random_expr(ctx.rng, ctx.rng.choice([3, 3, 4])) for _ in range(6000)]
+        rnd = [{"e": e, "cfgs": allc} for e in rnd if leaves(e) & {"x", "y"}]
+        nrandom = len(rnd)
+        n, last = batch("random", rnd, 0.02, last)
+        total += n
 
     # ---- vacuity guards (exit 2, never a verdict) ------------------------------------------
     for k in ("lin", "nonlin", "pos_only", "neg_only", "both", "kind", "kind_snp"):
@@ -367,12 +369,14 @@ def run(ctx):
         "exhaustive evaluation on the grid of declared domains). Non-trivial = reported non-linear, or linear with a fluent in "
         "the positive/negative sets. Unspecified = refused by the ExpressionManager, raising on a partially undefined expression, "
         "or undefined on the whole grid."
-        % ("of depth <= 2 with a leaf on one side of the root" if q else "of depth <= 2", len(cases), len(cfgs),
-           "" if q else " (op(D1,D1) on the first three), plus 12000 seeded random expressions of depth 3-4 with n-ary + and *")
+        % ("of depth <= 2 with a leaf on one side of the root" if q else "of depth <= 2 (op(D1, D1): only those mentioning q, on configuration 1)",
+           len(cases), len(cfgs),
+           " (an expression is run once per class of configurations that declare everything it mentions identically)"
+           + ("" if q else ", plus %d seeded random expressions of depth 3-4 with n-ary + and * on every configuration" % nrandom))
     )
     ctx.assumptions += [
         "TLC and the CommunityModules Json reader are trusted; upj.build / b_expr / p_expr only transcribe structure",
-        "monotonicity and affinity are decided on the declared finite integer domains (4 x 3 fluent values, 3 parameter values); "
+        "monotonicity and affinity are decided on the declared finite integer domains (3-4 values per fluent, 3 parameter values); "
         "points where the expression has no value (division by zero) carry no claim",
         "a fresh Environment is built after every exception so that C14/C16 effects (dirty walkers) are not attributed to C17",
         "the clause absent-but-dependent and raises-on-defined-expression follow the docstring of get_fluents, not the literal statement",
